@@ -681,7 +681,7 @@ func keyName(format, jsonName string) string {
 }
 
 func progDoc(p *actlang.Prog) interface{} {
-	return map[string]interface{}{"interpreter": "ecmascript", "source": p.JS()}
+	return map[string]interface{}{"interpreter": p.InterpreterName(), "source": p.JS()}
 }
 
 // Doc renders the spec as a generic document for the given format.  With
